@@ -116,6 +116,8 @@ fn scenario(p: Params) -> ExecResult {
     let mut noreply_done_logged = false;
     let mut wire_cursor = 0usize;
     let mut peer_serial = 1000u32;
+    let mut no_timer_reported = false;
+    let mut no_timer: Option<String> = None;
 
     loop {
         // observe what the connection wrote
@@ -150,6 +152,21 @@ fn scenario(p: Params) -> ExecResult {
             && noreply.as_ref().map(|h| h.is_done()).unwrap_or(true);
         if all_done {
             break;
+        }
+        // with a method timeout configured, every call that is waiting for its reply must have
+        // armed a (virtual) timer: otherwise "the configured method timeout passes" could never
+        // complete it
+        if p.timeout && w.enabled().is_empty() && !no_timer_reported {
+            let waiting = callers
+                .iter()
+                .enumerate()
+                .filter(|(i, c)| !c.is_done() && seen.contains_key(i) && !answered.contains_key(i))
+                .count();
+            let armed = zbus::verif::pending_timers().iter().filter(|(id, _)| !timers_fired.contains(id)).count();
+            if waiting > armed {
+                no_timer_reported = true;
+                no_timer = Some(format!("{waiting} call(s) are waiting for a reply with a method timeout configured, but only {armed} timer(s) are armed"));
+            }
         }
         // environment menu
         let mut menu: Vec<Env> = vec![];
@@ -242,6 +259,9 @@ fn scenario(p: Params) -> ExecResult {
         steps: w.steps,
         ..Default::default()
     };
+    if let Some(d) = no_timer {
+        res.violations.push(v("completed-on-timeout", d).feat("kind", "no-timer-armed"));
+    }
     for (i, c) in callers.iter().enumerate() {
         let serial = seen.get(&i).cloned();
         let out = c.take();
